@@ -72,7 +72,7 @@ Proof. intros [? ?]; split; apply ext_mono; assumption. Qed.
 
 Lemma add_obj_ext s g : ssub s (add_obj s g).
 Proof.
-  destruct g as [b hl lp lw lh | k b | ]; simpl.
+  destruct g as [b hl lp lw lh | k b | b' hl' lp' lw' lh']; simpl.
   - destruct (label_box b hl lp lw lh).
     + eapply ssub_trans; apply add_box_ext.
     + apply add_box_ext.
@@ -82,7 +82,7 @@ Qed.
 
 Lemma add_obj_mono s s' g : ssub s s' -> ssub (add_obj s g) (add_obj s' g).
 Proof.
-  intro H. destruct g as [b hl lp lw lh | k b | ]; simpl.
+  intro H. destruct g as [b hl lp lw lh | k b | b' hl' lp' lw' lh']; simpl.
   - destruct (label_box b hl lp lw lh); repeat apply add_box_mono; exact H.
   - destruct H as [H1 H2]. destruct k; split; simpl; try assumption; apply ext_mono; assumption.
   - exact H.
@@ -129,12 +129,12 @@ Definition obj_covered (s : bbstate) (g : gobj) : Prop :=
   | GNear k b =>
       (is_hcenter k = true -> covers (fst s) (bx b) (bx b + bw b)) /\
       (is_vcenter k = true -> covers (snd s) (by_ b) (by_ b + bh b))
-  | GOther => True
+  | GObjNear _ _ _ _ _ => True
   end.
 
 Lemma obj_covered_sub s s' g : obj_covered s g -> ssub s s' -> obj_covered s' g.
 Proof.
-  intros H [S1 S2]. destruct g as [b hl lp lw lh | k b | ]; simpl in *; auto.
+  intros H [S1 S2]. destruct g as [b hl lp lw lh | k b | b' hl' lp' lw' lh']; simpl in *; auto.
   - destruct H as (H1 & H2 & H3). repeat split; try (eapply covers_sub; eauto).
     destruct (label_box b hl lp lw lh); auto. destruct H3; split; eapply covers_sub; eauto.
   - destruct H as [H1 H2]. split; intro E; eapply covers_sub; eauto.
@@ -142,7 +142,7 @@ Qed.
 
 Lemma add_obj_covers s g : obj_covered (add_obj s g) g.
 Proof.
-  destruct g as [b hl lp lw lh | k b | ]; simpl; auto.
+  destruct g as [b hl lp lw lh | k b | b' hl' lp' lw' lh']; simpl; auto.
   - destruct (label_box b hl lp lw lh) as [l|] eqn:E; simpl.
     + repeat split; try apply ext_covers.
       * eapply covers_sub; [apply ext_covers | apply ext_sub].
@@ -469,3 +469,38 @@ Proof.
       destruct (bb_fold_covers _ pts _ Hin2) as [_ C]. apply covers_lohi, C, Kd. }
     destruct Cov. split; intro K; [specialize (T K) | specialize (B K)]; unfold pad in *; lra.
 Qed.
+
+(* ------------------------------------------------------------------ the whole main diagram *)
+Lemma map_plain_id main : no_obj_near_b main = true -> map plain main = main.
+Proof.
+  unfold no_obj_near_b. induction main as [|g l IH]; simpl; [reflexivity|].
+  rewrite andb_true_iff. intros [Hg Hl]. rewrite (IH Hl). destruct g; try discriminate; reflexivity.
+Qed.
+
+Lemma full_box_no_obj_near main pts : no_obj_near_b main = true -> full_box main pts [] = bounding_box main pts.
+Proof. intro H. unfold full_box. rewrite map_plain_id by exact H. rewrite app_nil_r. reflexivity. Qed.
+
+Lemma thm_outside_full main pts ns n p margin tol :
+  no_obj_near_b main = true ->
+  has_shape_b main = true -> forallb label_dims_ok_b ns = true ->
+  margin <= pad -> 0 <= tol ->
+  In (n, p) (combine ns (layout main pts ns)) ->
+  side_ok_b margin tol (full_box main pts []) (n_key n) (near_box n p) = true /\
+  center_ok_b tol (full_box main pts []) (n_key n) (near_box n p) = true.
+Proof.
+  intros Hno Hs Hd Hm Ht Hin. rewrite full_box_no_obj_near by exact Hno.
+  split; [eapply thm_outside | eapply thm_centered]; eassumption.
+Qed.
+
+(* the diagram   b;  a: {near: b; width: 800; height: 400};  r: R {near: bottom-right}   as dagre lays it out *)
+Definition cex_main : list gobj :=
+  [GMain (mkbox 0 167 53 66) true None 8 21; GObjNear (mkbox 113 0 800 400) true None 8 21].
+Definition cex_near : nearobj := mknear BottomRight 54 66 None 9 21.
+
+Lemma thm_object_near_refuted :
+  let p := (73 # 1, 253 # 1) in
+  has_shape_b cex_main = true /\ forallb label_dims_ok_b [cex_near] = true /\
+  In (cex_near, p) (combine [cex_near] (layout cex_main [] [cex_near])) /\
+  side_ok_b 0 0 (full_box cex_main [] []) BottomRight (near_box cex_near p) = false /\
+  boxes_overlap_b (near_box cex_near p) (mkbox 113 0 800 400) = true.
+Proof. vm_compute. repeat split; try reflexivity. left. reflexivity. Qed.
